@@ -24,6 +24,10 @@ _meta_note = "baseline is the real tool's own output on the base program, so the
 CLAIMED["C12"] = dict(technique="metamorphic testing over rapid-generated programs: semantics-preserving layout transformations must leave the (site, code) verdict set unchanged",
     text="Generated multi-package programs with all annotation kinds are transformed by chains of 1-3 layout changes (permute declarations, move a declaration to another file, insert blank lines/comments, go/format, consistent renaming of parameters/receivers/locals incl. un-shadowing) and re-analysed; the set of (tagged statement, code) pairs - for TONL01/PKGO01 (using package, type) - must be identical.",
     note=_meta_note, ref="DESIGN.md section 3, C12")
+
+CLAIMED["C13"] = dict(technique="metamorphic testing over rapid-generated programs: rewriting use-site type expressions into identical types (aliases, parentheses, renamed imports) must leave the (site, code) verdict set unchanged",
+    text="A random subset of the type mentions of a generated program is respelled through an alias declared in the using package, an alias declared in a new third package (the user keeps a direct import of the declaring package), added parentheses, or renamed imports; the (tagged statement, code) set must equal the base program's.",
+    note=_meta_note + "; value<->pointer respelling is not exercised", ref="DESIGN.md section 3, C13")
 ALL = ["C%02d" % i for i in range(1, 20)]
 NA_REASON = {}
 def main():
